@@ -48,8 +48,9 @@ def entry_of(path, st=None):
     if _stat.S_ISLNK(m):
         return ('l', _stat.S_IMODE(m), st.st_uid, st.st_gid, st.st_size,
                 _readlink(path), st.st_mtime_ns)
-    return ('o', _stat.S_IMODE(m), st.st_uid, st.st_gid, None, None,
-            st.st_mtime_ns)
+    # fifo / socket / device node: the type and device number are its content
+    return ('o', _stat.S_IMODE(m), st.st_uid, st.st_gid, _stat.S_IFMT(m),
+            st.st_rdev, st.st_mtime_ns)
 
 
 def snapshot(root):
